@@ -46,7 +46,9 @@ def corpus(tier, seed):
                  cooldown=5, memory=10),
     ]
     specs += [std_spec("rect2", s + 34, 50, reparameterisations={"c": "rescaletobounds"}),
-              std_spec("disc2", s + 35, 50)]
+              std_spec("disc2", s + 35, 50),
+              std_spec("gauss2", s + 36, 50, plot=True, kills=[170]),      # the sampler's own diagnostics enabled
+              std_spec("rect3", s + 37, 50, n_pool=2, memory=20, training_frequency=30)]
     if tier == "thorough":
         k = 13
         for model in ("gauss2", "plateau2", "hole2", "rosen2", "gauss4", "nonuni2"):
